@@ -698,6 +698,7 @@ type vfBackendObs struct {
 	reqs   [][]byte
 	md     []string
 	mdGrpc []string // values of grpc-previous-rpc-attempts
+	mdBin  []string // values of x-tok-bin
 	sawEOF bool
 }
 
@@ -714,6 +715,7 @@ func vfBackendRun(sc *vfBackendScript, obs *vfBackendObs, cs bool, st vfByteStre
 	if md, ok := metadata.FromIncomingContext(st.Context()); ok {
 		obs.md = md["x-md"]
 		obs.mdGrpc = md["grpc-previous-rpc-attempts"]
+		obs.mdBin = md["x-tok-bin"]
 	}
 	if sc.final != nil && sc.failAt == 0 {
 		return sc.final
